@@ -96,7 +96,7 @@ func delay(rng *rand.Rand) int {
 	case 4:
 		return 100 + rng.Intn(60)
 	default:
-		return 100 + rng.Intn(400)
+		return 100 + rng.Intn(250)
 	}
 }
 
@@ -623,13 +623,13 @@ func TestC21(t *testing.T) {
 	r.Assume("what the backend receives is Gate's own encoding of each written packet (snapshot at WritePacket), decoded by the independent ref/chatwire decoder; packet ids are out of scope (C06)")
 	r.Assume("ack packets carry no id: they are attributed to the client packets lying between the neighbouring id-carrying packets whose HandlePacket call preceded the write (most favourable attribution)")
 
-	n := r.N(3000, 200000)
+	n := r.N(3000, 60000)
 	master := r.Rng("specs")
 	seeds := make([]int64, n)
 	for i := range seeds {
 		seeds[i] = master.Int63()
 	}
-	workers := 8
+	workers := 12
 	if r.Thorough() {
 		workers = 14
 	}
@@ -651,6 +651,7 @@ func TestC21(t *testing.T) {
 					return
 				}
 				sp := genSpec(seeds[i])
+				r.LogCase(map[string]any{"seed": sp.Seed, "proto": sp.Proto, "sub": sp.Sub, "packets": len(sp.Items)}) // one of the cases in flight
 				var x *run
 				var done bool
 				ok, pv := lib.Returns(60*time.Second, func() { x, done = execute(sp) })
